@@ -110,7 +110,7 @@ func makePanicValue(kind string, n int) interface{} {
 
 func panicText(kind string, n int) string {
 	if kind == "runtime" {
-		return "runtime error"
+		return "assignment to entry in nil map"
 	}
 	v := makePanicValue(kind, n)
 	if e, ok := v.(error); ok {
@@ -138,6 +138,8 @@ type e3Model struct {
 	nextAct   int
 	nextPanic int
 	unknown   bool // the model met a situation the property does not constrain (accept any real behaviour from here)
+	// headWrite, when set, replaces the plain "accept the bytes" behaviour of the head (transport fault plans)
+	headWrite func(msg string)
 }
 
 type modelPanic struct {
@@ -224,6 +226,10 @@ func (m *e3Model) invoke(i, kind int, msg string) {
 			}
 			panic(modelPanic{kind: "error", text: text, closedErr: true})
 		}
+		if m.headWrite != nil {
+			m.headWrite(msg)
+			return
+		}
 		m.trace = append(m.trace, e3Ev{H: -2, Msg: msg})
 		return
 	case -101: // tail: close on unhandled exception
@@ -239,9 +245,11 @@ func (m *e3Model) invoke(i, kind int, msg string) {
 		if a.On != kind || m.depth >= 3 {
 			continue
 		}
-		m.depth++
-		m.act(i, a)
-		m.depth--
+		func() {
+			m.depth++
+			defer func() { m.depth-- }()
+			m.act(i, a)
+		}()
 	}
 	if h.spec.Stop>>uint(kind)&1 == 1 {
 		return
@@ -314,8 +322,16 @@ func (m *e3Model) invokeMethod(fn func()) {
 		if m.closed {
 			return
 		}
+		before := len(m.trace)
+		wasClosed := m.closed
 		m.fireException(mp)
 		if closesOnNetErr(mp.kind) {
+			if !m.closed && !wasClosed {
+				// a handler consumed a non-timeout net.Error raised through a channel entry point: the code
+				// closes the channel anyway today; the property is silent about it, so both outcomes are accepted
+				_ = before
+				m.unknown = true
+			}
 			m.close("x:" + mp.text)
 		}
 	}
@@ -539,7 +555,36 @@ func (r *e3Rig) snapshot() []e3Ev {
 	return append([]e3Ev(nil), r.trace...)
 }
 
-func (r *e3Rig) settle() bool { return r.tr.WaitReadParked(10 * time.Second) }
+// settle waits until the read loop is parked waiting for data or, if the channel
+// was closed, until the read loop has ended (so that every event it delivers is recorded).
+func (r *e3Rig) settle() bool {
+	if !r.tr.WaitReadParked(10 * time.Second) {
+		return false
+	}
+	if r.tr.IsClosed() {
+		done := make(chan struct{})
+		go func() { r.ex.WG.Wait(); close(done) }()
+		select {
+		case <-done:
+		case <-time.After(10 * time.Second):
+			return false
+		}
+	}
+	return true
+}
+
+// call runs fn on its own goroutine and waits for it; stuck reports that it did not
+// return within a very generous bound (the goroutine is then abandoned).
+func (r *e3Rig) call(fn func()) (escaped interface{}, stuck bool) {
+	done := make(chan interface{}, 1)
+	go func() { done <- mock.Catch(fn) }()
+	select {
+	case p := <-done:
+		return p, false
+	case <-time.After(15 * time.Second):
+		return nil, true
+	}
+}
 
 func (r *e3Rig) shutdown() {
 	r.ch.Close(nil)
